@@ -90,11 +90,12 @@ def run(ctx):
         H.ok("short-lived-types", sample={"rounds": 400})
     validate_t_enc(H, [t for t, _, _ in types])
     H.section("call trace round trip", "CallTraces over the fixture package's functions (module function, method, classmethod, staticmethod, read-only property, functools.wraps-decorated) with return / yield each absent, NoneType or a type",
-              "6 functions x 3 x 3")
+              "12 functions (incl. property / classmethod / staticmethod stacked on a wraps-style decorator) x 9 x 3")
     fx = Fixture("fxc08")
     try:
         m = fx.module()
-        funcs = [m.f, m.Widget.method, m.Widget.make.__func__, m.Widget.unit, m.Widget.ro.fget, m.wrapped.__wrapped__, m.gen, m.cached.__wrapped__, m.class_wrapped.__wrapped__]
+        funcs = [m.f, m.Widget.method, m.Widget.make.__func__, m.Widget.unit, m.Widget.ro.fget, m.wrapped.__wrapped__, m.gen, m.cached.__wrapped__, m.class_wrapped.__wrapped__,
+                 m.Gauge.level.fget.__wrapped__, m.Gauge.__dict__["build"].__func__.__wrapped__, m.Gauge.__dict__["unit2"].__func__.__wrapped__]
         for fn in funcs:
             for ret in (None, NoneType, int, m.Widget, m.Widget.Part, m.NoneType, m.mappingproxy, typing.Optional[m.NoneType], typing.List[m.mappingproxy]):
                 for yld in (None, NoneType, str):
